@@ -29,6 +29,9 @@ Inductive payload :=
 | PImportFrom (ln eln : nat) (names : list impname)
 | PIf (test : string)                                (* str() of the condition expression *)
 | PDoc (ln eln : nat)                                (* expression statement holding a string constant: its span *)
+| PCall (recv method : string) (has_arg : bool) (items : list string)
+    (* expression statement that is a call of an attribute: name of the receiver when it is a bare name ("" otherwise),
+       the attribute, whether there is a first positional argument, the __all__ items read off that argument *)
 | PNone.
 
 (* a node: class name, payload, and its statement-bearing fields in _fields order (body / handlers / orelse /
@@ -133,14 +136,25 @@ Fixpoint lower (n : rnode) {struct n} : option stmt :=
               match pay, fs with
               | PIf test, [body; orelse] => Some (SIf (str_mem test type_checking_tests) body orelse)
               | _, _ => None end
+          | Some HExpr =>
+              (* visit_expr: <all_receiver>.<method>(argument) with method in all_methods extends the exports exactly as
+                 `__all__ += argument` does (module only, exports already a list, items well formed; `append(x)` is
+                 `extend([x])`, so the items are those of x either way); any other expression statement does nothing;
+                 a string constant stays the docstring marker it is for its neighbours *)
+              match pay, fs with
+              | PDoc ln eln, [] => Some (SDoc ln eln)
+              | PCall recv method has_arg items, [] =>
+                  Some (if String.eqb recv all_receiver && negb (String.eqb all_receiver "") && str_mem method all_methods && has_arg
+                        then SAugAll items else SOther)
+              | PNone, [] => Some SOther
+              | _, _ => None end
           | Some HModule => None                       (* a module is not a statement *)
           | None =>
               (* generic_visit: the children, field by field; the node itself does nothing.  A string expression
                  statement is kept as the docstring marker it is for its neighbours. *)
               match pay, fs with
               | PDoc ln eln, [] => Some (SDoc ln eln)
-              | PNone, _ => Some (SBlock (map (sub_of kind) fs))
-              | _, _ => None
+              | _, _ => Some (SBlock (map (sub_of kind) fs))
               end
           end
       end
@@ -193,6 +207,8 @@ Definition dec_payload (s : sexp) : option payload :=
       do ln' <- as_nat ln; do eln' <- as_nat eln; do ns <- as_list_of dec_impname names; Some (PImportFrom ln' eln' ns)
   | SList [SStr "if"; SStr test] => Some (PIf test)
   | SList [SStr "doc"; ln; eln] => do ln' <- as_nat ln; do eln' <- as_nat eln; Some (PDoc ln' eln')
+  | SList [SStr "call"; SStr recv; SStr method; ha; items] =>
+      do ha' <- as_bool ha; do it <- as_list_of as_str items; Some (PCall recv method ha' it)
   | SList [SStr "none"] => Some PNone
   | _ => None
   end.
